@@ -665,6 +665,11 @@ def run_pipeline(out, jobs_by_name, mc_specs, prop):
                 what="clauses %s at call %d" % (",".join(mine), ev)))
         for p in props - {prop}:
             out.others[p] = out.others.get(p, 0) + 1
+            samples = out.cov.setdefault("other_property_samples", {})
+            if p not in samples and t:
+                samples[p] = {"clauses": clauses, "call": ev, "cfg": t["cfg"],
+                              "ops": [[o["k"], o.get("text") or o.get("texts") or [o["id"], o["id2"]]] for o in t["src"][:ev]],
+                              "res": [e["res"] + (":" + e["exc"] if e["exc"] else "") for e in t["ev"][:ev]]}
     def interest(t):
         ks = [e["op"]["k"] for e in t["ev"] if e["res"] == "ok"]
         return (len(set(ks) & {"rm", "disc", "ren", "settag", "rsc"}), len({e["res"] for e in t["ev"]}), -abs(len(t["ev"]) - 8))
